@@ -792,6 +792,11 @@ class SymNP:
 
     @staticmethod
     def resize(a, n):
+        if isinstance(a, SMat) and isinstance(n, tuple):
+            if n[1] != a.ncols:
+                raise NotModelled("resize with another column count")
+            return SMat([list(a.rows[i % len(a.rows)])
+                         for i in range(_conc_int(n[0]))], a.dtype)
         e = list(a)
         n = _conc_int(n)
         out = [e[i % len(e)] for i in range(n)]
@@ -868,7 +873,10 @@ class SymNP:
         return sum_(a)
 
     @staticmethod
-    def any(a):
+    def any(a, axis=None):
+        if isinstance(a, SMat) and axis == 1:
+            return SArr([SBool(z3.Or([tobool(_asb(v)) for v in r]))
+                         for r in a.rows], bool)
         return SymNP.asarray(a).any() if not isinstance(a, (bool, SBool)) \
             else a
 
@@ -974,8 +982,13 @@ class SymNP:
         return real_np.issubdtype(a, b)
 
     @staticmethod
-    def prod(a, **kw):
-        return real_np.prod(a, **kw)
+    def prod(a, axis=None, dtype=None, **kw):
+        if isinstance(a, SMat) and a.dtype == bool and axis == 1:
+            return SArr([SBool(z3.And([tobool(_asb(v)) for v in r]))
+                         for r in a.rows], bool)
+        if axis is None and dtype is None:
+            return real_np.prod(a, **kw)
+        return real_np.prod(a, axis=axis, dtype=dtype, **kw)
 
     @staticmethod
     def isscalar(x):
@@ -1087,6 +1100,43 @@ class SMat:
 
     def copy(self):
         return SMat(self.rows, self.dtype)
+
+    def _reduce(self, kind, axis):
+        from .symx import smax, smin
+        f = smin if kind == "min" else smax
+        if axis is None:
+            return f([v for r in self.rows for v in r])
+        if axis == 0:
+            return SArr([f([r[j] for r in self.rows])
+                         for j in range(len(self.rows[0]))], self.dtype)
+        if axis == 1:
+            return SArr([f(list(r)) for r in self.rows], self.dtype)
+        raise NotModelled("axis %r" % (axis,))
+
+    def min(self, axis=None):
+        return self._reduce("min", axis)
+
+    def max(self, axis=None):
+        return self._reduce("max", axis)
+
+    def _cmp2(self, o, op):
+        if o is None or isinstance(o, (str, bytes)):
+            return op == "ne"
+        if not isinstance(o, (SMat, list, tuple, real_np.ndarray)):
+            return NotImplemented
+        orows = o.rows if isinstance(o, SMat) else [list(r) for r in o]
+        if len(orows) != len(self.rows):
+            raise ValueError("operands could not be broadcast together")
+        return SMat([[_cmp(a, b, op) for a, b in zip(r1, r2)]
+                     for r1, r2 in zip(self.rows, orows)], bool)
+
+    def __eq__(self, o):
+        return self._cmp2(o, "eq")
+
+    def __ne__(self, o):
+        return self._cmp2(o, "ne")
+
+    __hash__ = None
 
     def astype(self, dtype, copy=True):
         return SMat(self.rows, dtype)
